@@ -21,7 +21,28 @@ pub struct Fact {
 const NEAR: i64 = 48;
 
 /// Alignment facts of a program under `k` (block-stream points near an edge)
+thread_local! {
+    static FACTS_CACHE: std::cell::RefCell<std::collections::HashMap<u64, Vec<Fact>>> = std::cell::RefCell::new(std::collections::HashMap::new());
+}
+
+/// cached per program: a violating sweep asks thousands of times for the same program
 pub fn facts(p: &Program, k: &K) -> Vec<Fact> {
+    let key = p.fingerprint() ^ k.chunk;
+    if let Some(v) = FACTS_CACHE.with(|c| c.borrow().get(&key).cloned()) {
+        return v;
+    }
+    let v = facts_uncached(p, k);
+    FACTS_CACHE.with(|c| {
+        let mut c = c.borrow_mut();
+        if c.len() > 4096 {
+            c.clear();
+        }
+        c.insert(key, v.clone());
+    });
+    v
+}
+
+fn facts_uncached(p: &Program, k: &K) -> Vec<Fact> {
     let mut v = Vec::new();
     if p.layers == 0 {
         return v;
